@@ -21,7 +21,14 @@ from klongpy.db.sys_fn_kvs import KeyValueStorage, TableStorage
 
 ROOT = '/store'
 KEYS = ['a', 'b', 'd/x', 'd/y']
-MISSING = ['zz', 'd/zz', 'q/r']
+MISSING = ['zz', 'd/zz', 'q/r', 'd']        # 'd' names the directory of the nested keys once one of them is set
+CONFLICT = ['d', 'a/q']                    # keys the one-file-per-key layout cannot hold next to 'd/x' / 'a': a set of
+                                           # one of them (or of 'd/x' / 'a' after it) must fail and change nothing
+
+
+def _conflicts(k, model):
+    """k cannot be stored next to the keys of model: one of the two is a path prefix (a directory) of the other."""
+    return any(m.startswith(k + '/') or k.startswith(m + '/') for m in model)
 
 
 def _values():
@@ -175,6 +182,10 @@ def make_expand(limit, values, val_idx, sizes):
             ops.append(('unload', k))
         for k in MISSING:
             ops.append(('get', k))
+        for k in CONFLICT:
+            ops.append(('set', k, val_idx[0]))
+            if k not in MISSING:
+                ops.append(('get', k))
         ops.append(('reopen',))
         return ops
 
@@ -188,7 +199,10 @@ def make_expand(limit, values, val_idx, sizes):
                 exp = expected(model, op, limit, sizes, canon_vals)
                 apply_model(model, op, limit, sizes)
                 bad = []
-                if exp is not None and got != exp:
+                if exp == ('exc-os',):
+                    if not (got[0] == 'exc' and got[1] in OS_ERRORS):
+                        bad.append(('result', _show(got), 'raise (the key cannot be stored next to the existing keys)'))
+                elif exp is not None and got != exp:
                     bad.append(('result', _show(got), _show(exp)))
                 bad.extend(invariants(env, model, values))
                 out['transitions'] += 1
@@ -208,6 +222,9 @@ def make_expand(limit, values, val_idx, sizes):
     return expand, build
 
 
+OS_ERRORS = ('IsADirectoryError', 'NotADirectoryError', 'FileExistsError', 'OSError')
+
+
 def _limname(limit, sizes):
     return 'default' if limit is None else '%dB' % limit
 
@@ -223,6 +240,8 @@ def expected(model, op, limit, sizes, canon_vals):
     if op[0] == 'set':
         if sizes[op[2]] > lim:
             return ('exc', 'MemoryError')
+        if _conflicts(op[1], model):
+            return ('exc-os',)          # any OSError class: which one depends on which of the two is the directory
         return ('ok', ('store',))
     if op[0] == 'get':
         if op[1] not in model:
@@ -233,7 +252,7 @@ def expected(model, op, limit, sizes, canon_vals):
 
 def apply_model(model, op, limit, sizes):
     lim = limit or 2 ** 20
-    if op[0] == 'set' and sizes[op[2]] <= lim:
+    if op[0] == 'set' and sizes[op[2]] <= lim and not _conflicts(op[1], model):
         model[op[1]] = op[2]
 
 
@@ -282,14 +301,16 @@ def run(cfg):
         'table_search': tt['info'],
         'distinct_outcomes': len(total.get('outcomes', ())) + tt['outcomes'],
         'value_sizes': dict(zip([show(cn(v))[:20] for v in values], sizes)),
-        'rule': 'BFS over histories of set/get/get-missing/unload/reopen on 4 keys (flat and nested) through the Klong-level '
+        'rule': 'BFS over histories of set/get/get-missing/unload/reopen on 4 keys (flat and nested) plus 2 keys that collide with a '
+                'directory / a file of the others, through the Klong-level '
                 'forms; states merged on (model, cache entries, LRU order, byte total); one search per cache-limit class',
     }
     rep.assumptions = [
         'sequential use: every public call blocks until its task has finished, so the real executor is idle between '
         'operations (checked: future-pending invariant)',
         'memfs stands for the directory; pickle is the serialisation (as in the code)',
-        'key "d" (a path prefix of other keys) is outside the alphabet: the one-file-per-key layout cannot hold it',
+        'a key that is a path prefix of another key ("d" next to "d/x", "a/q" next to "a") cannot be stored by the one-file-per-key '
+        'layout: its set must raise an OSError and leave everything as it was; its get reads :undefined',
     ]
     return rep
 
